@@ -12,19 +12,20 @@ class ElementDG(Element):
                               + elem.refdom.nfacets * elem.facet_dofs
                               + elem.refdom.nedges * elem.edge_dofs
                               + elem.interior_dofs)
+        # same order as the basis functions: nodal, edge, facet, interior
         self.dofnames = (
             elem.refdom.nnodes * elem.dofnames[:elem.nodal_dofs]
-            + elem.refdom.nfacets * elem.dofnames[slice(elem.nodal_dofs,
-                                                        (elem.nodal_dofs
-                                                         + elem.facet_dofs))]
-            + elem.refdom.nedges * elem.dofnames[slice((elem.nodal_dofs
-                                                        + elem.facet_dofs),
+            + elem.refdom.nedges * elem.dofnames[slice(elem.nodal_dofs,
                                                        (elem.nodal_dofs
-                                                        + elem.facet_dofs
                                                         + elem.edge_dofs))]
+            + elem.refdom.nfacets * elem.dofnames[slice((elem.nodal_dofs
+                                                         + elem.edge_dofs),
+                                                        (elem.nodal_dofs
+                                                         + elem.edge_dofs
+                                                         + elem.facet_dofs))]
             + elem.dofnames[(elem.nodal_dofs
-                             + elem.facet_dofs
-                             + elem.edge_dofs):]
+                             + elem.edge_dofs
+                             + elem.facet_dofs):]
         )
         self.doflocs = elem.doflocs
         self.refdom = elem.refdom
